@@ -45,6 +45,8 @@ func (w *c19World) value(setting, v string) string {
 			return b
 		case "empty":
 			return ""
+		case "file-missing", "file-broken":
+			return a // the value is fine, the file is not
 		case "bad2":
 			// a second malformed form per security-relevant setting
 			switch setting {
@@ -306,9 +308,22 @@ func runC19(c c19Case, st *hx.Stats) error {
 	if useXDG {
 		env = append(env, "XDG_CONFIG_HOME="+w.xdg)
 	}
+	fileState := ""
+	for _, a := range c.Assigns {
+		if a.Value == "file-missing" || a.Value == "file-broken" {
+			fileState = a.Value
+		}
+	}
 	for f, lines := range ini {
 		os.MkdirAll(filepath.Dir(f), 0o755)
-		os.WriteFile(f, []byte("[server]\n"+strings.Join(lines, "\n")+"\n"), 0o644)
+		switch fileState {
+		case "file-missing":
+			// the configuration file that was named does not exist
+		case "file-broken":
+			os.WriteFile(f, []byte("[server\n"+strings.Join(lines, "\n")+"\n"), 0o644) // unclosed section header
+		default:
+			os.WriteFile(f, []byte("[server]\n"+strings.Join(lines, "\n")+"\n"), 0o644)
+		}
 	}
 	// settings not under test get fixed values by flag
 	addr := fmt.Sprintf("127.0.0.1:%d", w.portA)
@@ -322,7 +337,7 @@ func runC19(c c19Case, st *hx.Stats) error {
 	anyBad, flagVal := false, ""
 	vals := map[string]bool{}
 	for _, a := range c.Assigns {
-		if a.Value == "bad" || a.Value == "bad2" || a.Value == "empty" {
+		if a.Value == "bad" || a.Value == "bad2" || a.Value == "empty" || a.Value == "file-missing" || a.Value == "file-broken" {
 			anyBad = true
 		}
 		if a.Channel == "flag" {
@@ -463,8 +478,31 @@ func c19Cases(yield func(c19Case) bool) {
 	}
 }
 
+// c19FileCases: the configuration file itself is the problem - an explicitly named file that does not exist, or a
+// file (in any location) that is no INI file. A whitelist kept in such a file must not silently vanish: start-up
+// stops with an error message, not with a stack trace.
+func c19FileCases(yield func(c19Case) bool) {
+	for _, ch := range []string{"config-flag", "config-env"} {
+		if !yield(c19Case{Setting: "client-whitelist", Assigns: []c19Assign{{ch, "file-missing"}}}) {
+			return
+		}
+	}
+	for _, ch := range []string{"config-flag", "config-env", "cwd-ini", "user-ini", "xdg-ini"} {
+		if !yield(c19Case{Setting: "client-whitelist", Assigns: []c19Assign{{ch, "file-broken"}}}) {
+			return
+		}
+	}
+}
+
 func TestC19Config(t *testing.T) {
 	st := hx.NewStats("C19", "config")
 	st.MarkExhaustive("9 settings x 7 channels x 2 values (single channel); all flag-vs-other pairs; 3 malformed forms (wrong syntax, second wrong form, empty) per security-relevant setting per channel; other channel pairs sampled 1/3 in quick, all in thorough")
-	hx.RunCases(t, st, c19Cases, runC19, hx.PropOpts{})
+	all := func(yield func(c19Case) bool) {
+		ok := true
+		c19Cases(func(c c19Case) bool { ok = yield(c); return ok })
+		if ok {
+			c19FileCases(yield)
+		}
+	}
+	hx.RunCases(t, st, all, runC19, hx.PropOpts{})
 }
